@@ -1,6 +1,8 @@
 """C05 — Checksummed files reject every detectable corruption."""
 from vlib.skyb import ap_crc32, make_file, hx, rand_bytes
 
+from vlib.skyb import _TAB, _TOP
+
 PID = "C05"
 LEAN_MODULE = "Sb.Properties.C05"
 THEOREMS = [
@@ -191,4 +193,50 @@ def generate(rng, tier):
                     if bytes(g) == f:
                         continue
                     out.append((f"fcorr {rng.choice('mf')} {hx(g)}", True))
+    # checksums that look like sentinels: files whose AP-CRC32 is ffffffff, 00000000 or 00000001 (the last four bytes of a trailing
+    # comment block are chosen accordingly) are valid like any other - they load, and every alteration is corrupted data; and for an
+    # ordinary file the one four-byte overwrite that drives the computed checksum to ffffffff (or 0) is an alteration like any other
+    from vlib.skyb import forge_tail
+    for target in (0xFFFFFFFF, 0, 1, 0x80000000):
+        for n in ((40, 250, 300) if not thorough else (20, 40, 160, 250, 256, 300, 520)):
+            body = bytes(rng.getrandbits(8) for _ in range(n))
+            pre = bytearray(b"skyb\x02\x01\0\0\0\0" + bytes([3, (n + 4) & 255, (n + 4) >> 8]) + body)
+            f = bytearray(pre + forge_tail(bytes(pre), target))
+            assert ap_crc32(bytes(f)) == target
+            f[6:10] = target.to_bytes(4, "little")
+            f = bytes(f)
+            out.append((f"facc m {hx(f)}", True))
+            out.append((f"facc f {hx(f)}", True))
+            for kind in "tlyr":
+                out.append((f"load2 {kind} {hx(f)}", True))
+            for k in list(range(32)) + [rng.randrange(32, (len(f) - 6) * 8) for _ in range(24)]:
+                g = bytearray(f)
+                g[6 + k // 8] ^= 1 << (k % 8)
+                out.append((f"fcorr {'mf'[k % 2]} {hx(g)}", True))
+    for f in valid_files(rng, tier)[:(6 if not thorough else 20)]:
+        if len(f) < 20:
+            continue
+        for target in (0xFFFFFFFF, 0):
+            for off in sorted({10, 13, len(f) // 2, len(f) - 9, len(f) - 4} | ({254, 255, 256} if len(f) > 262 else set())):
+                if off < 10 or off + 4 > len(f):
+                    continue
+                # overwrite f[off:off+4] so that the checksum of the altered file (field zeroed) is `target`: solve for the window by
+                # forging the tail of the prefix for the register value that the unchanged suffix maps to the target
+                z = bytearray(f)
+                z[6:10] = b"\0\0\0\0"
+                suffix = bytes(z[off + 4:])
+                # run the register backwards through the suffix
+                u = target
+                for b in reversed(suffix):
+                    idx = _TOP[u >> 24]
+                    u = ((((u ^ _TAB[idx]) << 8) & 0xFFFFFFFF) | idx) ^ b
+                w = forge_tail(bytes(z[:off]), u)
+                g = bytearray(f)
+                g[off:off + 4] = w
+                z2 = bytearray(g)
+                z2[6:10] = b"\0\0\0\0"
+                assert ap_crc32(bytes(z2)) == target, (hex(ap_crc32(bytes(z2))), hex(target))
+                if bytes(g) != f:
+                    out.append((f"fcorr m {hx(g)}", True))
+                    out.append((f"fcorr f {hx(g)}", True))
     return out
